@@ -21,3 +21,19 @@ checks.append(chk("C08",
  "Proof: for every encoder (bool, byte, ints, floats, bin64/128/256, bytes, string, struct trailer, list and message tables) the bytes appended to the buffer equal a spec function of the arguments only - literal type codes, big-endian fields, reverse compact varints with the 0xfc/0xffff/0xffffffff thresholds, NUL terminator, 3/6 and 2/4 byte table entries, big form exactly when a tag > 255, an offset > 65535 or more than 255 elements - and the bytes already in the buffer are preserved. buffer.Grow's assumed contract leaves the new bytes UNSPECIFIED, so dependence on buffer history cannot meet the postcondition.",
  "buffer.Buffer is an interface: its contract (Grow returns the n bytes after the old content, old content preserved, new bytes unspecified) is assumed. compactint.PutReverse*, encoding/binary PutUint*, bin MarshalTo are verified from source, not assumed. The 'independent reference implementation' of the statement is played by the SMT spec functions (written from the property text with literal constants). Writer-level ordering of table entries (sorted by tag) is under C01/C12.",
  TECH, "DESIGN.md section 4 C08"))
+checks.append(chk("C16",
+ "Proof of the library clauses the property rests on: lookup by tag in a serialized table returns the offset of an entry carrying exactly that tag (never another field's), and -1 when a sorted table has none - independent of every other entry; absent fields (nil bytes) decode to the zero value with size 0 and no error for every scalar, bytes, string, list and message decoder; field bytes are a prefix view of the message's own bytes.",
+ "Scope: the dynamic tag-based API (format.MessageTable, types.Message, the decoders). Not yet included: MessageWriter.Copy/Merge preserving unknown fields, and generated accessors of evolved schemas (C05 translation validation).",
+ TECH, "DESIGN.md section 4 C16"))
+checks.append(chk("C18",
+ "Proof, with obligations GENERATED FROM EACH STRUCT'S FIELD LIST, that the release/reset of every pooled object leaves every field at its zero value except the ones listed as deliberately retained (backing arrays, the drained wake-up slot, the emptied byte queue, mutexes): writer state (releaseWriterState, writerState.init/reset), mpx channel state and channel handler, rpc client and server call states. A field added later and forgotten by a reset fails its own generated obligation.",
+ "Sequential clause of the property only: that an object is never held by two goroutines, and data-race freedom, are schedule properties and are not decided. rpc requestState.reset rebuilds its writers instead of zeroing and is not under contract. pools.Pool is an assumed interface (New returns some non-nil object whose contents are NOT assumed).",
+ TECH, "DESIGN.md section 4 C18"))
+checks.append(chk("C19",
+ "Proof for every attempt number (all 2^63 values, no bound): reconnectTimeout(a) for a >= 2 equals min(1 s, 25 ms * (2^a - 2)), lies in [25 ms, 1 s], and (ghost client program, proved from the contract alone) never decreases from one attempt to the next; no signed overflow in the computation.",
+ "Only the back-off clause of the property is decided. The flag consistency (Connected/Disconnected), the max-connections bound, Close being terminal and reconnection after server restart are properties of interleavings / fault sequences and are not decided by this check.",
+ TECH, "DESIGN.md section 4 C19"))
+checks.append(chk("C07",
+ "Proof of the sender's admission rule for all int32 window and message sizes: decrementSendWindow debits the window at most once, by exactly the message size, and only after loading a free window w with w >= size or w >= W/2 (truncating division); and it waits only when w < size and w < W/2 - asserted at the wait point from the property text, so both a looser and a stricter admission rule fail. The atomic's Load returns an arbitrary value (any interference from window updates).",
+ "Scope: the admission decision in (*channelState).decrementSendWindow. Not decided: the acknowledgement rule in ReceiveAsync, the exemption of the first/closing message, conservation across the wire and the absence of lost wake-ups (interleavings). sync/atomic, async.Context and select are modelled by assumed contracts / nondeterministic choice.",
+ TECH, "DESIGN.md section 4 C07"))
